@@ -86,6 +86,7 @@ pub fn c01(cx: &RunCtx) {
     cx.assume("inputs longer than the explored depth are reached only through the finite pumped families");
     for_each_dom!(c01_dom, cx);
     crate::fam::pumping_all(cx, &[Kind::Panic]);
+    crate::tchecks::all_ops_trees(cx, &[Kind::Panic]);
 }
 
 // ---------------------------------------------------------------- C02
@@ -99,6 +100,7 @@ pub fn c02(cx: &RunCtx) {
     cx.assume("steps are counted by the cfg-guarded tick() calls (eval entry, evaluator loops, tokenizer, parser); loops without a counter are covered only by the 10 s wall-clock watchdog");
     for_each_dom!(c02_dom, cx);
     crate::fam::pumping_all(cx, &[Kind::Budget]);
+    crate::tchecks::all_ops_trees(cx, &[Kind::Budget]);
 }
 
 // ---------------------------------------------------------------- C03
@@ -143,6 +145,7 @@ pub fn dispatch(cx: &RunCtx) -> bool {
         "C13" => crate::mchecks::c13(cx),
         "C14" => crate::mchecks::c14(cx),
         "C20" => crate::mchecks::c20(cx),
+        "C15" => crate::xchecks::c15(cx),
         "C18" => crate::nchecks::c18(cx),
         "C19" => crate::nchecks::c19(cx),
         _ => return false,
